@@ -12,7 +12,7 @@ class Z3H:
         self.S = z3.Function("S", z3.RealSort(), z3.RealSort())
         self.Cf = z3.Function("C", z3.RealSort(), z3.RealSort())
         self.ufs = {}
-        self.side = []          # defining constraints of auxiliary symbols (sqrt, trig identities)
+        self.side = [self.S(z3.RealVal(0)) == 0, self.Cf(z3.RealVal(0)) == 1]   # defining constraints of auxiliary symbols (sqrt, trig identities); sin 0 = 0, cos 0 = 1
         self.domain = []        # domain side conditions (radicand >= 0, denominator != 0): assumed, and reported
         self._sqrt, self._trig, self.n = {}, {}, 0
 
@@ -133,6 +133,16 @@ class REnc:
             return z3.And(self.cond(c[1]), self.cond(c[2]))
         if k == "or":
             return z3.Or(self.cond(c[1]), self.cond(c[2]))
+        if k == "fcmp" and (c[2][0] == "inf" or c[3][0] == "inf"):
+            # comparisons against +-infinity over the reals: every real is strictly between -inf and +inf
+            p = c[1][1:]
+            if c[2][0] == "inf" and c[3][0] == "inf":
+                a_, b_ = c[2][1], c[3][1]
+            elif c[3][0] == "inf":
+                a_, b_ = 0, c[3][1] * 2
+            else:
+                a_, b_ = c[2][1] * 2, 0
+            return z3.BoolVal({"eq": a_ == b_, "ne": a_ != b_, "lt": a_ < b_, "le": a_ <= b_, "gt": a_ > b_, "ge": a_ >= b_}[p])
         if k == "fcmp":
             a, b = self.term(c[2]), self.term(c[3])
             p = c[1]
